@@ -484,10 +484,7 @@ func runC19(c *Ctx) {
 			}
 		}
 		// stray directory entries
-		ext := cfg.Ext
-		if ext == "" {
-			ext = ".json"
-		}
+		ext := cfg.BaseExt()
 		strayFiles := []string{"README", "x", ".hidden", known, known + ".", known + ext + ".bak", "schema.json.bak", "zz" + ext, NeverUUID + ext, NeverUUID}
 		for _, name := range strayFiles {
 			if !mine() {
